@@ -691,6 +691,30 @@ theorem accepted_retry_ready (cfg : Cfg) (raises : Bool) (content : Bytes) (fs0 
   exact ⟨hok, (published_content cfg sc2 noFaults _ e h1).1, h4⟩
 
 
+/-- hence a crash at ANY point of ANY accepted observed run is safe: for every prefix of the successful
+    events and both crash semantics the destination reads the old state or the complete new content
+    (`C04.safeTrace_crash_safe` applied to `accepted_trace_safe`) -/
+theorem accepted_crash_safe (cfg : Cfg) (raises ok : Bool) (content : Bytes) (fs0 : FS) (t : List Obs)
+    (hacc : Accept cfg raises ok content fs0.umask fs0.destMode t = true)
+    (hwf : fs0.WF) (hh : fs0.hist = []) (hsy : DestSynced fs0) :
+    ∀ p q fs, oks t = p ++ q → exec fs0 p = some fs →
+      (fs.destAfterProcCrash = fs0.readDest ∨ fs.destAfterProcCrash = some (allWrites (oks t))) ∧
+      (∀ r, fs.PowerDest r → r = fs0.readDest ∨ r = some (allWrites (oks t))) ∧
+      (publishes p = false → fs.destAfterProcCrash = fs0.readDest ∧ ∀ r, fs.PowerDest r → r = fs0.readDest) := by
+  intro p q fs ht hx
+  have := safeTrace_crash_safe fs0 _ hwf hh hsy (accepted_trace_safe cfg raises ok content _ _ t hacc) p q fs ht hx
+  exact ⟨this.1, this.2.1, this.2.2.1⟩
+
+/-- **The fault-free runs of the transliteration are accepted**: for every configuration, initial state
+    and write-only with-block, the events `runScript` performs without faults (`nofault_trace_is_saverTrace`)
+    form an accepted trace - as a completed save when the block does not raise, as a failed one when it
+    does.  (`Accept` is satisfiable in every configuration, and the theorems about `runScript` and the
+    `accepted_*` theorems speak about the same runs there.) -/
+theorem nofault_runs_are_accepted (cfg : Cfg) (fs0 : FS) (body : Body) :
+    Accept cfg body.raises (!body.raises) (newContent body) fs0.umask fs0.destMode
+      ((saverTrace cfg fs0 body).map Obs.ok) = true :=
+  saverTrace_accepted cfg fs0 body
+
 /-- **Probes are free**: observations without effect on the automaton - successful calls without effect
     on the two names (stat, lstat, fdopen, fcntl, close of a closed object ...) and calls that failed on
     their own without being a listed step (an `unlink` / `stat` answering ENOENT) - can be inserted or
